@@ -240,6 +240,9 @@ func xgenSchemas(c *Ctx, r *rng.R, n int, verbose bool) {
 				msgs[key] = newTally()
 			}
 			m := unhexMsg(strings.TrimPrefix(o, "E:"))
+			if !strings.HasPrefix(o, "E:") {
+				m = "worker reply " + o[:min(len(o), 60)]
+			}
 			msgs[key].add(classify(m), "")
 			hit := false
 			for _, want := range clauseMessage[key] {
